@@ -31,6 +31,8 @@ def run(ctx):
                             "and provider (machine, model, listeners), self/internal/multi-event transitions, callbacks "
                             "declaring random subsets of event/source/target/state, both engines; non-trivial = an "
                             "executed transition ran callbacks of >=3 groups (or internal + event-scoped callback)")
+    from framework import run_py_corpus
+    ctx.coverage["corpus_programs"] = run_py_corpus(ctx)
     engine_check(ctx, PROFILE, 800, 20000, nontrivial, monitor=c02_monitor, tag="C02s")
     cov1 = dict(ctx.coverage)
     engine_check(ctx, PROFILE_ASYNC, 300, 8000, nontrivial, monitor=c02_monitor, tag="C02a")
